@@ -60,6 +60,26 @@ func spareCap(b []byte) (sub, whole []byte) {
 	return whole[:len(b)], whole
 }
 
+// entropyArg is spareCap, except that (outside the race programs) about half of the E calls pass the SAME
+// guarded array as the previous such call of that length, refilled in place - a caller that reuses one buffer
+// for successive entropies.  A library that keeps a reference to its argument (a cache keyed by the slice, a
+// retained sub-slice) then sees its own memory change between calls; the caller is within its rights.
+var reuseOK = true
+var reuseBufs = map[int][]byte{}
+
+func entropyArg(b []byte, key string) (sub, whole []byte) {
+	if b == nil || !reuseOK || crc32.ChecksumIEEE([]byte(key))%2 != 0 {
+		return spareCap(b)
+	}
+	w, ok := reuseBufs[len(b)]
+	if !ok {
+		_, w = spareCap(b)
+		reuseBufs[len(b)] = w
+	}
+	copy(w, b)
+	return w[:len(b)], w
+}
+
 func hx(b []byte) string {
 	if len(b) == 0 {
 		return "-"
@@ -263,7 +283,7 @@ var swapMu sync.Mutex
 func runOp(f []string) string {
 	switch f[0] {
 	case "E":
-		ent, whole := spareCap(unhex(f[2]))
+		ent, whole := entropyArg(unhex(f[2]), strings.Join(f, " "))
 		snap := append([]byte{}, whole...)
 		return guard(func() string {
 			s, err := bip39.NewMnemonicByEntropy(ent, lang(f[1]))
